@@ -191,7 +191,11 @@ class Ref:
                                lambda: f'{sid}@{fmt(tau)} lies within the promise ({fmt(te)}, {m}] but is caused by {self._cz(cz)}')
             self.check('C07', max_advance <= self.until, 'C07.until', lambda: f'{sid} max_advance {max_advance} > until {self.until}')
             has_trig = any(c.ds == sid and c.trigger for c in self.conns)
-            if not has_trig:
+            # an initial event that is still outstanding is a step "for a reason outside its own control" as well: the first clause
+            # of the statement then forbids the promise to reach it, so the "equals until" clause is only evaluated without one
+            # (likewise a step the simulator scheduled for itself BEFORE this step, which an initial event has overtaken)
+            ext_pending = bool(s.demands)
+            if not has_trig and not ext_pending:
                 self.check('C07', max_advance == self.until, 'C07.notrigger',
                            lambda: f'{sid} has no trigger input but max_advance {max_advance} != until {self.until}')
         # C01 causal readiness
